@@ -455,6 +455,7 @@ func (db *DB) beginSyncDiag(operation diagOp) {
 }
 
 func (db *DB) setSyncDiagPhase(phase diagPhase, updates ...func(*diagState)) {
+	verifPhase(db, string(phase))
 	db.syncDiag.Lock()
 	defer db.syncDiag.Unlock()
 	if !db.syncDiag.active {
@@ -891,6 +892,7 @@ func (db *DB) Close(ctx context.Context) (err error) {
 	// encode from the database file and from WAL offsets captured earlier and
 	// rely on the read lock to keep the WAL from being restarted under them;
 	// releasing it early lets a snapshot mix page versions of different commits.
+	verifPhase(db, "close_release")
 	db.chkMu.Lock()
 	defer db.chkMu.Unlock()
 
@@ -2626,6 +2628,7 @@ func (db *DB) checkpointWithExecutor(ctx context.Context, mode string, exec *syn
 		barrierTx = nil
 	}
 
+	verifPhase(db, "checkpoint_bump_seq")
 	if err = db.bumpLitestreamSeq(ctx); err != nil {
 		return false, fmt.Errorf("bump litestream seq: %w", err)
 	}
@@ -2917,6 +2920,7 @@ func (db *DB) snapshotReader(ctx context.Context, pos *snapshotReadPosition) (io
 	pr, pw := io.Pipe()
 	go func() {
 		defer pos.close()
+		verifPhase(db, "snapshot_encode")
 
 		walFile, err := os.Open(db.WALPath())
 		if err != nil {
